@@ -125,6 +125,16 @@ def trade_accounting(tr, market, phase):
                     tr.violate("C10", "trade-live-with-all-orders-complete", {"cause": causes, "statuses": ",".join(sorted({sname(o.status) for o in t.orders}))}, trade=tk, tick=tr.tick)
                 if t.status.name == "PENDING":
                     tr.violate("C10", "trade-left-pending", {"cause": causes}, trade=tk, tick=tr.tick)
+                # a starting-price order that the exchange accepted stays open until the starting price is struck (or its runner
+                # is withdrawn / the market closes): its trade is live until then, whatever the order's local status says
+                mb = market.market_book
+                if mb is not None and mb.status != "CLOSED" and not mb.bsp_reconciled and phase == "book" and tr.framework.SIMULATED:  # (backtests: the file is the exchange)
+                    active = {(r.selection_id, r.handicap) for r in mb.runners if r.status == "ACTIVE"}
+                    sp_open = [o for o in placed_orders if o.order_type.ORDER_TYPE.name != "LIMIT" and o.bet_id and (o.selection_id, o.handicap) in active and not (o.simulated and o.simulated.size_voided)]
+                    if sp_open:
+                        tr.counters["rule_sp-open"] += 1
+                        if t.status.name == "COMPLETE" or any(o.complete for o in sp_open):
+                            tr.violate("C10", "trade-or-order-complete-while-sp-order-open", {"otype": sp_open[0].order_type.ORDER_TYPE.name, "trade": t.status.name}, trade=tk, tick=tr.tick, statuses=[sname(o.status) for o in t.orders])
 
 
 # ---- C16 ------------------------------------------------------------------------------------
